@@ -58,6 +58,13 @@ theorem countP_flush (p : Client → Bool) (hp : ∀ c b, p { c with logged := b
 theorem isReader_logged (c : Client) (b : Bool) : isReader { c with logged := b } = isReader c := rfl
 theorem isWriter_logged (c : Client) (b : Bool) : isWriter { c with logged := b } = isWriter c := rfl
 
+theorem isReader_flushElem (c : Client) (o : Nat) :
+    isReader (if c.obj = some o ∧ c.logged = false then { c with logged := true } else c) = isReader c := by
+  split <;> rfl
+theorem isWriter_flushElem (c : Client) (o : Nat) :
+    isWriter (if c.obj = some o ∧ c.logged = false then { c with logged := true } else c) = isWriter c := by
+  split <;> rfl
+
 theorem flush_getElem? (cs : List Client) (o i : Nat) (c : Client) (h : cs[i]? = some c) :
     (flushHolders cs o)[i]? = some (if c.obj = some o ∧ c.logged = false then { c with logged := true } else c) := by
   unfold flushHolders
@@ -67,21 +74,20 @@ theorem flush_getElem? (cs : List Client) (o i : Nat) (c : Client) (h : cs[i]? =
 before except for ghost flags -/
 theorem lockInv_step (pref : Bool) (s s' : State) (h : LockInv s) (hs : s' ∈ step pref s) : LockInv s' := by
   obtain ⟨i, c, hc, hs⟩ := mem_forWorkers.mp hs
-  have key : ∀ (c' : Client) (cs : List Client) (r : Nat) (w : Bool),
-      cs[i]? = some c → cs.countP isReader = s.clients.countP isReader → cs.countP isWriter = s.clients.countP isWriter →
-      (r + (if isReader c then 1 else 0) = s.readers + (if isReader c' then 1 else 0)) →
-      ((if w then 1 else 0) + (if isWriter c then 1 else 0) = (if s.writer then 1 else 0) + (if isWriter c' then 1 else 0)) →
+  have key : ∀ (c0 c' : Client) (cs : List Client) (r : Nat) (w : Bool),
+      cs[i]? = some c0 → cs.countP isReader = s.clients.countP isReader → cs.countP isWriter = s.clients.countP isWriter →
+      (r + (if isReader c0 then 1 else 0) = s.readers + (if isReader c' then 1 else 0)) →
+      ((if w then 1 else 0) + (if isWriter c0 then 1 else 0) = (if s.writer then 1 else 0) + (if isWriter c' then 1 else 0)) →
       (w = true → r = 0) →
       ∀ s'', s''.readers = r → s''.writer = w → s''.clients = cs.set i c' → LockInv s'' := by
-    intro c' cs r w hci hr hw hrr hww hex s'' e1 e2 e3
-    have h1 := countP_set' isReader cs i c c' hci
-    have h2 := countP_set' isWriter cs i c c' hci
+    intro c0 c' cs r w hci hr hw hrr hww hex s'' e1 e2 e3
+    have h1 := countP_set' isReader cs i c0 c' hci
+    have h2 := countP_set' isWriter cs i c0 c' hci
     have hR := h.readers
     have hW := h.writers
     refine ⟨?_, ?_, ?_⟩
     · rw [e1, e3]; omega
-    · rw [e2, e3]
-      cases w <;> cases hsw : s.writer <;> simp [hsw] at hww hW ⊢ <;> omega
+    · rw [e2, e3]; omega
     · rw [e1, e2]; exact hex
   unfold clientStep at hs
   cases hpc : c.pc <;> simp only [hpc] at hs
@@ -89,26 +95,26 @@ theorem lockInv_step (pref : Bool) (s s' : State) (h : LockInv s) (hs : s' ∈ s
     simp only [mem_guard] at hs
     obtain ⟨hg, rfl⟩ := hs
     have hw : s.writer = false := by simp [canRLock] at hg; exact hg.1
-    exact key _ s.clients (s.readers + 1) s.writer hc rfl rfl (by simp [isReader, hpc]) (by simp [isWriter, hpc])
+    exact key c _ s.clients (s.readers + 1) s.writer hc rfl rfl (by simp [isReader, hpc]) (by simp [isWriter, hpc])
       (by simp [hw]) _ rfl rfl rfl
   · -- find
     cases hreq : c.req <;> simp only [hreq] at hs
     · split at hs <;> simp at hs <;> subst hs <;>
-        exact key _ s.clients s.readers s.writer hc rfl rfl (by simp [isReader, hpc]) (by simp [isWriter, hpc])
+        exact key c _ s.clients s.readers s.writer hc rfl rfl (by simp [isReader, hpc]) (by simp [isWriter, hpc])
           h.excl _ rfl rfl rfl
     · split at hs <;> simp at hs <;> subst hs <;>
-        exact key _ s.clients s.readers s.writer hc rfl rfl (by simp [isReader, hpc]) (by simp [isWriter, hpc])
+        exact key c _ s.clients s.readers s.writer hc rfl rfl (by simp [isReader, hpc]) (by simp [isWriter, hpc])
           h.excl _ rfl rfl rfl
     · simp at hs
     · simp at hs
   · -- eval
     split at hs
     · simp at hs; subst hs
-      exact key _ s.clients s.readers s.writer hc rfl rfl (by simp [isReader, hpc]) (by simp [isWriter, hpc])
+      exact key c _ s.clients s.readers s.writer hc rfl rfl (by simp [isReader, hpc]) (by simp [isWriter, hpc])
         h.excl _ rfl rfl rfl
     · split at hs
       · simp at hs; subst hs
-        exact key _ s.clients s.readers s.writer hc rfl rfl (by simp [isReader, hpc]) (by simp [isWriter, hpc])
+        exact key c _ s.clients s.readers s.writer hc rfl rfl (by simp [isReader, hpc]) (by simp [isWriter, hpc])
           h.excl _ rfl rfl rfl
       · simp at hs
     · simp at hs
@@ -117,19 +123,19 @@ theorem lockInv_step (pref : Bool) (s s' : State) (h : LockInv s) (hs : s' ∈ s
     have hpos : 0 < s.readers := by
       rw [h.readers]
       exact List.countP_pos_iff.mpr ⟨c, List.mem_of_getElem? hc, by simp [isReader, hpc]⟩
-    exact key _ s.clients (s.readers - 1) s.writer hc rfl rfl (by simp [isReader, hpc]; omega) (by simp [isWriter, hpc])
+    exact key c _ s.clients (s.readers - 1) s.writer hc rfl rfl (by simp [isReader, hpc]; omega) (by simp [isWriter, hpc])
       (fun hw => by have := h.excl hw; omega) _ rfl rfl rfl
   · -- wlock
     simp only [mem_guard] at hs
     obtain ⟨hg, rfl⟩ := hs
     simp [canLock] at hg
-    exact key _ s.clients s.readers true hc rfl rfl (by simp [isReader, hpc]) (by simp [isWriter, hpc, hg.1])
+    exact key c _ s.clients s.readers true hc rfl rfl (by simp [isReader, hpc]) (by simp [isWriter, hpc, hg.1])
       (fun _ => hg.2) _ rfl rfl rfl
   · -- apply
     split at hs
     · split at hs
       · simp at hs; subst hs
-        exact key _ s.clients s.readers s.writer hc rfl rfl (by simp [isReader, hpc]) (by simp [isWriter, hpc])
+        exact key c _ s.clients s.readers s.writer hc rfl rfl (by simp [isReader, hpc]) (by simp [isWriter, hpc])
           h.excl _ rfl rfl rfl
       · simp at hs
     · simp at hs
@@ -140,22 +146,22 @@ theorem lockInv_step (pref : Bool) (s s' : State) (h : LockInv s) (hs : s' ∈ s
       have hpos : 0 < s.clients.countP isWriter :=
         List.countP_pos_iff.mpr ⟨c, List.mem_of_getElem? hc, by simp [isWriter, hpc]⟩
       cases hsw : s.writer
-      · simp [hsw] at this; omega
+      · rw [hsw] at this; simp only [Bool.false_eq_true, ↓reduceIte] at this; omega
       · rfl
-    exact key _ s.clients s.readers false hc rfl rfl (by simp [isReader, hpc]) (by simp [isWriter, hpc, hw])
+    exact key c _ s.clients s.readers false hc rfl rfl (by simp [isReader, hpc]) (by simp [isWriter, hpc, hw])
       (by simp) _ rfl rfl rfl
   · -- rlock2
     simp only [mem_guard] at hs
     obtain ⟨hg, rfl⟩ := hs
     have hw : s.writer = false := by simp [canRLock] at hg; exact hg.1
-    exact key _ s.clients (s.readers + 1) s.writer hc rfl rfl (by simp [isReader, hpc]) (by simp [isWriter, hpc])
+    exact key c _ s.clients (s.readers + 1) s.writer hc rfl rfl (by simp [isReader, hpc]) (by simp [isWriter, hpc])
       (by simp [hw]) _ rfl rfl rfl
   · -- finalRUnlock
     simp at hs; subst hs
     have hpos : 0 < s.readers := by
       rw [h.readers]
       exact List.countP_pos_iff.mpr ⟨c, List.mem_of_getElem? hc, by simp [isReader, hpc]⟩
-    exact key _ s.clients (s.readers - 1) s.writer hc rfl rfl (by simp [isReader, hpc]; omega) (by simp [isWriter, hpc])
+    exact key c _ s.clients (s.readers - 1) s.writer hc rfl rfl (by simp [isReader, hpc]; omega) (by simp [isWriter, hpc])
       (fun hw => by have := h.excl hw; omega) _ rfl rfl rfl
   · -- mapop
     cases hreq : c.req <;> simp only [hreq] at hs
@@ -164,19 +170,307 @@ theorem lockInv_step (pref : Bool) (s s' : State) (h : LockInv s) (hs : s' ∈ s
     · split at hs
       · rename_i o ho
         simp at hs; subst hs
-        refine key { c with pc := .done, logged := true } (flushHolders s.clients o) s.readers s.writer ?_
+        refine key _ _ (flushHolders s.clients o) s.readers s.writer (flush_getElem? _ _ _ _ hc)
           (countP_flush _ isReader_logged _ _) (countP_flush _ isWriter_logged _ _) ?_ ?_ h.excl _ rfl rfl rfl
-        · rw [flush_getElem? _ _ _ _ hc]
-          sorry
-        · sorry
-        · sorry
+        · rw [isReader_flushElem]; simp [isReader, hpc]
+        · rw [isWriter_flushElem]; simp [isWriter, hpc]
       · simp at hs; subst hs
-        exact key _ s.clients s.readers s.writer hc rfl rfl (by simp [isReader, hpc]) (by simp [isWriter, hpc])
+        exact key c _ s.clients s.readers s.writer hc rfl rfl (by simp [isReader, hpc]) (by simp [isWriter, hpc])
           h.excl _ rfl rfl rfl
     · simp at hs; subst hs
-      exact key _ s.clients s.readers s.writer hc rfl rfl (by simp [isReader, hpc]) (by simp [isWriter, hpc])
+      exact key c _ s.clients s.readers s.writer hc rfl rfl (by simp [isReader, hpc]) (by simp [isWriter, hpc])
         h.excl _ rfl rfl rfl
   · -- done
     simp at hs
+
+/-! ## Part 2: maps, views, the reference run -/
+
+theorem mfind_append (m : List (Nat × Nat)) (w o wid : Nat) :
+    mfind (m ++ [(w, o)]) wid = match mfind m wid with
+      | some x => some x
+      | none => if w = wid then some o else none := by
+  induction m with
+  | nil => simp [mfind]
+  | cons p rest ih =>
+    obtain ⟨i, x⟩ := p
+    simp only [List.cons_append, mfind]
+    by_cases h : i = wid
+    · simp [h]
+    · simp [h, ih]
+
+theorem mfind_erase (m : List (Nat × Nat)) (w wid : Nat) :
+    mfind (merase m w) wid = if wid = w then none else mfind m wid := by
+  induction m with
+  | nil => simp [merase, mfind]
+  | cons p rest ih =>
+    obtain ⟨i, x⟩ := p
+    unfold merase at ih ⊢
+    by_cases hi : i = w
+    · simp [List.filter, hi, ih, mfind]
+      by_cases h2 : wid = w
+      · simp [h2]
+      · have : ¬ w = wid := fun e => h2 e.symm
+        simp [h2, this]
+    · have hb : ((i, x).1 != w) = true := by simp [hi]
+      simp only [List.filter, hb, mfind, ih]
+      by_cases h2 : i = wid
+      · have : ¬ wid = w := by rw [← h2]; exact hi
+        simp [h2, this]
+      · simp [h2]
+
+theorem vfind_vset (v : View) (wid : Nat) (w : World) (wid' : Nat) :
+    vfind (vset v wid w) wid' = if wid = wid' then some w else vfind v wid' := by
+  induction v with
+  | nil => simp [vset, vfind]
+  | cons p rest ih =>
+    obtain ⟨i, x⟩ := p
+    unfold vset
+    by_cases h : i = wid
+    · simp only [h, ↓reduceIte, vfind]
+      by_cases h2 : wid = wid' <;> simp [h2]
+    · simp only [h, ↓reduceIte, vfind, ih]
+      by_cases h2 : i = wid'
+      · have : ¬ wid = wid' := by rw [← h2]; exact fun e => h e.symm
+        simp [h2, this]
+      · simp [h2]
+
+theorem vfind_verase (v : View) (wid wid' : Nat) :
+    vfind (verase v wid) wid' = if wid' = wid then none else vfind v wid' := by
+  induction v with
+  | nil => simp [verase, vfind]
+  | cons p rest ih =>
+    obtain ⟨i, x⟩ := p
+    unfold verase at ih ⊢
+    by_cases hi : i = wid
+    · simp [List.filter, hi, ih, vfind]
+      by_cases h2 : wid' = wid
+      · simp [h2]
+      · have : ¬ wid = wid' := fun e => h2 e.symm
+        simp [h2, this]
+    · have hb : ((i, x).1 != wid) = true := by simp [hi]
+      simp only [List.filter, hb, vfind, ih]
+      by_cases h2 : i = wid'
+      · have : ¬ wid' = wid := by rw [← h2]; exact hi
+        simp [h2, this]
+      · simp [h2]
+
+/-- which world a request touches -/
+def Req.wid? : Req → Option Nat
+  | .query w => some w
+  | .change w _ => some w
+  | .delete w => some w
+  | .list => none
+
+theorem serialStep_other (base : World) (A : View) (r : Req) (wid' : Nat) (h : Req.wid? r ≠ some wid') :
+    vfind (serialStep base A r) wid' = vfind A wid' := by
+  cases r with
+  | query w =>
+    have : ¬ w = wid' := fun e => h (by simp [Req.wid?, e])
+    simp only [serialStep]
+    split
+    · rfl
+    · rw [vfind_vset]; simp [this]
+  | change w rs =>
+    have : ¬ w = wid' := fun e => h (by simp [Req.wid?, e])
+    simp only [serialStep]
+    split <;> (rw [vfind_vset]; simp [this])
+  | delete w =>
+    have : ¬ wid' = w := fun e => h (by simp [Req.wid?, e])
+    simp only [serialStep]
+    rw [vfind_verase]; simp [this]
+  | list => rfl
+
+theorem serialStep_query (base : World) (A : View) (wid : Nat) :
+    vfind (serialStep base A (.query wid)) wid = match vfind A wid with
+      | some w => some w
+      | none => some base := by
+  simp only [serialStep]
+  split
+  · rename_i w h; simp [h]
+  · rename_i h; rw [vfind_vset]; simp [h]
+
+theorem serialStep_change (base : World) (A : View) (wid : Nat) (rs : List Rule) :
+    vfind (serialStep base A (.change wid rs)) wid = match vfind A wid with
+      | some w => some (applyWrites w (evalRules w rs))
+      | none => some (applyWrites base (evalRules base rs)) := by
+  simp only [serialStep]
+  split
+  · rename_i w h; rw [vfind_vset]; simp [h]
+  · rename_i h; rw [vfind_vset]; simp [h]
+
+theorem serialRun_append (base : World) (A : View) (l : List Req) (r : Req) :
+    serialRun base A (l ++ [r]) = serialStep base (serialRun base A l) r := by
+  simp [serialRun, List.foldl_append]
+
+theorem serialRun_append' (base : World) (A : View) (l l' : List Req) :
+    serialRun base A (l ++ l') = serialRun base (serialRun base A l) l' := by
+  simp [serialRun, List.foldl_append]
+
+theorem serialRun_other (base : World) (l : List Req) : ∀ (A : View) (wid' : Nat),
+    (∀ r ∈ l, Req.wid? r ≠ some wid') → vfind (serialRun base A l) wid' = vfind A wid' := by
+  induction l with
+  | nil => intro A wid' _; rfl
+  | cons r rest ih =>
+    intro A wid' h
+    simp only [serialRun, List.foldl_cons]
+    have := ih (serialStep base A r) wid' (fun r' hr' => h r' (List.mem_cons_of_mem _ hr'))
+    simp only [serialRun] at this
+    rw [this, serialStep_other _ _ _ _ (h r (List.mem_cons_self ..))]
+
+/-- the doomed changes of world `wid` followed by its deletion: `wid` is gone, nothing else moved -/
+theorem serialRun_doomed (base : World) (A : View) (ds : List Req) (wid wid' : Nat)
+    (hds : ∀ r ∈ ds, Req.wid? r = some wid) :
+    vfind (serialRun base A (ds ++ [.delete wid])) wid' = if wid' = wid then none else vfind A wid' := by
+  rw [serialRun_append]
+  simp only [serialStep]
+  rw [vfind_verase]
+  by_cases h : wid' = wid
+  · simp [h]
+  · simp only [h, ↓reduceIte]
+    apply serialRun_other
+    intro r hr
+    rw [hds r hr]
+    intro e
+    exact h (Option.some.inj e).symm
+
+/-! ## Part 3: guards that nobody else writes are stable -/
+
+theorem wget_wset (w : World) (k : Key) (v : Val) (k' : Key) :
+    wget (wset w k v) k' = if k = k' then some v else wget w k' := by
+  induction w with
+  | nil => simp [wset, wget]
+  | cons p rest ih =>
+    obtain ⟨i, x⟩ := p
+    unfold wset
+    by_cases h : i = k
+    · simp only [h, ↓reduceIte, wget]
+      by_cases h2 : k = k' <;> simp [h2]
+    · simp only [h, ↓reduceIte, wget, ih]
+      by_cases h2 : i = k'
+      · have : ¬ k = k' := by rw [← h2]; exact fun e => h e.symm
+        simp [h2, this]
+      · simp [h2]
+
+theorem wget_wdel (w : World) (k k' : Key) :
+    wget (wdel w k) k' = if k' = k then none else wget w k' := by
+  induction w with
+  | nil => simp [wdel, wget]
+  | cons p rest ih =>
+    obtain ⟨i, x⟩ := p
+    unfold wdel at ih ⊢
+    by_cases hi : i = k
+    · simp [List.filter, hi, ih, wget]
+      by_cases h2 : k' = k
+      · simp [h2]
+      · have : ¬ k = k' := fun e => h2 e.symm
+        simp [h2, this]
+    · have hb : ((i, x).1 != k) = true := by simp [hi]
+      simp only [List.filter, hb, wget, ih]
+      by_cases h2 : i = k'
+      · have : ¬ k' = k := by rw [← h2]; exact hi
+        simp [h2, this]
+      · simp [h2]
+
+theorem wget_applyWrite_other (w : World) (wr : Write) (k : Key) (h : wr.key ≠ k) :
+    wget (applyWrite w wr) k = wget w k := by
+  cases wr with
+  | set k0 v => simp [applyWrite, wget_wset, Write.key] at h ⊢; simp [h]
+  | del k0 =>
+    simp [applyWrite, wget_wdel, Write.key] at h ⊢
+    intro e; exact absurd e.symm h
+
+theorem wget_applyWrites_other (ws : List Write) : ∀ (w : World) (k : Key), (∀ wr ∈ ws, wr.key ≠ k) →
+    wget (applyWrites w ws) k = wget w k := by
+  induction ws with
+  | nil => intro w k _; rfl
+  | cons wr rest ih =>
+    intro w k h
+    simp only [applyWrites, List.foldl_cons]
+    have := ih (applyWrite w wr) k (fun x hx => h x (List.mem_cons_of_mem _ hx))
+    simp only [applyWrites] at this
+    rw [this, wget_applyWrite_other _ _ _ (h wr (List.mem_cons_self ..))]
+
+theorem evalRules_congr (rs : List Rule) (w w' : World)
+    (h : ∀ k ∈ guardKeys rs, wget w' k = wget w k) : evalRules w' rs = evalRules w rs := by
+  induction rs with
+  | nil => rfl
+  | cons r rest ih =>
+    have hrest : ∀ k ∈ guardKeys rest, wget w' k = wget w k := by
+      intro k hk
+      apply h
+      simp only [guardKeys, List.filterMap_cons] at hk ⊢
+      split
+      · exact hk
+      · exact List.mem_cons_of_mem _ hk
+    have hg : guardHolds w' r.guard = guardHolds w r.guard := by
+      cases hgd : r.guard with
+      | none => rfl
+      | some p =>
+        obtain ⟨k, b⟩ := p
+        have : wget w' k = wget w k := by
+          apply h
+          simp [guardKeys, hgd]
+        simp [guardHolds, this]
+    simp only [evalRules, hg, ih hrest]
+
+theorem evalRules_keys (w : World) (rs : List Rule) : ∀ wr ∈ evalRules w rs, wr.key ∈ writeKeys rs := by
+  induction rs with
+  | nil => intro wr h; simp [evalRules] at h
+  | cons r rest ih =>
+    intro wr h
+    simp only [evalRules] at h
+    simp only [writeKeys, List.map_cons, List.mem_cons]
+    split at h
+    · rcases List.mem_cons.mp h with h | h
+      · left; rw [h]
+      · right; exact ih wr h
+    · right; exact ih wr h
+
+theorem conflicts_false {w : Nat} {r1 r2 : List Rule} (h : conflicts (.change w r1) (.change w r2) = false) :
+    ∀ k ∈ guardKeys r1, k ∉ writeKeys r2 := by
+  intro k hk hw
+  simp only [conflicts, beq_self_eq_true, Bool.true_and] at h
+  have : (guardKeys r1).any (fun k => (writeKeys r2).contains k) = true :=
+    List.any_eq_true.mpr ⟨k, hk, by simpa using hw⟩
+  rw [h] at this
+  exact absurd this (by simp)
+
+/-- a change computed from `w` stays what it is when another request of a conflict-free set writes `w` -/
+theorem evalRules_stable {wid : Nat} {r1 r2 : List Rule} (h : conflicts (.change wid r1) (.change wid r2) = false)
+    (w w2 : World) : evalRules (applyWrites w (evalRules w2 r2)) r1 = evalRules w r1 := by
+  apply evalRules_congr
+  intro k hk
+  apply wget_applyWrites_other
+  intro wr hwr e
+  exact conflicts_false h k hk (e ▸ evalRules_keys w2 r2 wr hwr)
+
+theorem conflictFree_get : ∀ (l : List Req), conflictFree l = true → ∀ (i j : Nat) (a b : Req), i ≠ j →
+    l[i]? = some a → l[j]? = some b → conflicts a b = false := by
+  intro l
+  induction l with
+  | nil => intro _ i j a b _ hi; simp at hi
+  | cons r rest ih =>
+    intro h i j a b hij hi hj
+    simp only [conflictFree, Bool.and_eq_true, List.all_eq_true] at h
+    obtain ⟨hall, hrest⟩ := h
+    cases i with
+    | zero =>
+      cases j with
+      | zero => exact absurd rfl hij
+      | succ j =>
+        simp at hi hj
+        have := hall b (List.mem_of_getElem? hj)
+        simp at this
+        rw [← hi]; exact this.1
+    | succ i =>
+      cases j with
+      | zero =>
+        simp at hi hj
+        have := hall a (List.mem_of_getElem? hi)
+        simp at this
+        rw [← hj]; exact this.2
+      | succ j =>
+        simp at hi hj
+        exact ih hrest i j a b (fun e => hij (by rw [e])) hi hj
 
 end B6.Lemmas.ProtoService
